@@ -11,3 +11,5 @@ INVARIANT PairIsBalancedForgery
 INVARIANT AdmissibleIs
 INVARIANT EveryClassReachable
 INVARIANT RepairedRejects
+INVARIANT LastWins
+INVARIANT DiscardedOnly
